@@ -74,9 +74,8 @@ class Env:
 
         def exp_rename(se):
             s, e = se
-            for x in e.free_symbols:
-                e = e.subs(x, Symbol(f"{deff[0]}_{x.name}"))
-            return (Symbol(f"{deff[0]}_{s.name}"), e)
+            ren = {x: Symbol(f"{deff[0]}_{x.name}") for x in e.free_symbols}
+            return (Symbol(f"{deff[0]}_{s.name}"), e.xreplace(ren))
 
         deff = (
             deff[0],  # name
@@ -89,7 +88,7 @@ class Env:
         d_exp: Dict[Symbol, Boolean] = {}
         n_exps = []
         for s, e in deff[3]:
-            new_e = e.subs(d_exp)
+            new_e = e.xreplace(d_exp)
             d_exp[s] = new_e
             n_exps.append((s, new_e))
 
